@@ -223,6 +223,29 @@ let () =
         let s = decode_case line in
         String.concat "|" (List.map (fun (plain, tg) -> sdump (parse_from_cow_and_metadata s plain tg)) resolve_configs) ^ ";ok"
     | "c08-oracle" -> c08_oracle line
+    | "markers" ->
+        (* <code points>#i:l:c,i:l:c,...  -> one 0/1 per marker *)
+        (match String.split_on_char '#' line with
+         | [c; ms] ->
+             let orig = decode_case c in
+             if ms = "" then "" else
+             String.concat "" (List.map (fun m ->
+               let mk = parse_mark m in
+               if marker_ok orig mk.m_index mk.m_line mk.m_col then "1" else "0") (String.split_on_char ',' ms))
+         | _ -> failwith "markers")
+    | "hist-spec" ->
+        (* <PN pattern>#<n events>#<E|S|X>  : n plain events 0..n-1 then an error (E), or StreamEnd is event n-1 (S),
+           or the list simply stops (X: not reached) *)
+        (match String.split_on_char '#' line with
+         | [pat; n; kind] ->
+             let n = int_of_string n in
+             let h = List.init (String.length pat) (fun i -> if pat.[i] = 'P' then Peek else Next) in
+             let evs = List.init n (fun i -> Inl (n_of_int i)) in
+             let results = if kind = "E" then evs @ [Inr (n_of_int 0)] else evs in
+             let end_idx = if kind = "S" then n_of_int (n - 1) else n_of_int 999999 in
+             String.concat ";" (List.map (function
+               | None -> "NONE" | Some (Inl i) -> string_of_int (int_of_n i) | Some (Inr _) -> "ERR") (hist_spec h results end_idx))
+         | _ -> failwith "hist-spec")
     | "load" ->
         (match run_load (decode_case line) with
          | LDocs d -> "OK " ^ String.concat " ; " (List.map dump d)
